@@ -85,6 +85,7 @@ type opT struct {
 	Kind   string  `json:"op"` // vote tally prune powers valset catchup override activate mkbatch dropbatch regenesis
 	C      int     `json:"c,omitempty"`
 	V      int     `json:"v,omitempty"`
+	S      *int    `json:"s,omitempty"` // vote: the account that creates / signs the message (absent = the named validator v itself)
 	Claim  *claimT `json:"claim,omitempty"`
 	N      uint64  `json:"n,omitempty"`
 	ID     int     `json:"id,omitempty"`
@@ -93,6 +94,16 @@ type opT struct {
 	Status []int   `json:"status,omitempty"` // valset: per validator 0 bonded 1 unbonding 2 unbonded 3 no staking record
 	Jailed []bool  `json:"jailed,omitempty"`
 	BN     uint64  `json:"bn,omitempty"` // dropbatch
+}
+
+func (c *claimT) typ() string {
+	switch {
+	case c.Batch:
+		return "batch"
+	case c.Sale:
+		return "sale"
+	}
+	return "deposit"
 }
 
 // palomaStub stands in for x/paloma (C18 drives the real one): one licence per client, first wins.
@@ -215,9 +226,17 @@ func md(o string) valsettypes.MsgMetadata {
 	return valsettypes.MsgMetadata{Creator: o, Signers: []string{o}}
 }
 
-// mkMsg builds the claim message validator v submits on chain ci.
-func (e *env) mkMsg(ci, v int, c *claimT) types.EthereumClaim {
+func (o opT) signer() int {
+	if o.S != nil {
+		return *o.S
+	}
+	return o.V
+}
+
+// mkMsg builds the claim message account sg creates and signs on chain ci, naming validator v as orchestrator.
+func (e *env) mkMsg(ci, v, sg int, c *claimT) types.EthereumClaim {
 	o := e.orch(v)
+	md := func(string) valsettypes.MsgMetadata { cr := e.orch(sg); return valsettypes.MsgMetadata{Creator: cr, Signers: []string{cr}} }
 	switch {
 	case c.Batch:
 		tk := tokC[ci]
@@ -243,7 +262,7 @@ func (e *env) mkMsg(ci, v int, c *claimT) types.EthereumClaim {
 }
 
 func (e *env) hashOf(ci int, c *claimT) (uint64, []byte) {
-	h, err := e.mkMsg(ci, 0, c).ClaimHash()
+	h, err := e.mkMsg(ci, 0, 0, c).ClaimHash()
 	must(err)
 	x := binary.BigEndian.Uint64(h[:8]) >> 1 // 63 bits, order preserving
 	if prev, ok := e.hashH[x]; ok && prev != string(h) {
@@ -415,7 +434,7 @@ func (e *env) apply(ctx sdk.Context, o opT) (out applyOut) {
 	var err error
 	switch o.Kind {
 	case "vote":
-		msg := e.mkMsg(o.C, o.V, o.Claim)
+		msg := e.mkMsg(o.C, o.V, o.signer(), o.Claim)
 		switch m := msg.(type) {
 		case *types.MsgBatchSendToRemoteClaim:
 			if err = m.ValidateBasic(); err == nil {
@@ -545,7 +564,7 @@ func (e *env) coqOp(o opT, ao applyOut, rank map[uint64]int) string {
 	switch o.Kind {
 	case "vote":
 		h, _ := e.hashOf(o.C, o.Claim)
-		return fmt.Sprintf("Vote %s %s %s", emit.ZI(int64(o.V)), emit.Bool(o.V >= 0 && o.V < nVals), coqClaim(o.C, o.Claim, rank[h]))
+		return fmt.Sprintf("VoteBy %s %s %s %s", emit.ZI(int64(o.signer())), emit.ZI(int64(o.V)), emit.Bool(o.V >= 0 && o.V < nVals), coqClaim(o.C, o.Claim, rank[h]))
 	case "tally":
 		return "Tally"
 	case "prune":
@@ -651,6 +670,13 @@ func distinctPower(a attObs, pw []int64) int64 {
 	return sum
 }
 
+// gt66: 100*sum > 66*total without overflow (powers go up to CometBFT's MaxTotalVotingPower = MaxInt64/8)
+func gt66(sum, total int64) bool {
+	a := new(big.Int).Mul(big.NewInt(100), big.NewInt(sum))
+	b := new(big.Int).Mul(big.NewInt(66), big.NewInt(total))
+	return a.Cmp(b) > 0
+}
+
 func inCompass(compass int, a attObs) bool {
 	return compass <= 0 || a.Compass == compassIDs[compass]
 }
@@ -670,7 +696,10 @@ func (or *oracle) step(e *env, ctx sdk.Context, run *emit.Run, o opT, ok bool, e
 		if or.voted[key(string(h))] == nil {
 			or.voted[key(string(h))] = map[int]bool{}
 		}
-		or.voted[key(string(h))][o.V] = true
+		or.voted[key(string(h))][o.signer()] = true // who SENT the message (the harness built and "signed" it)
+		if o.signer() != o.V {
+			out = append(out, viol{"C02:vote-cast-by-other-account", fmt.Sprintf("chain %d: a %s claim created by account %d naming validator %d as orchestrator was accepted as validator %d's vote", c, o.Claim.typ(), o.signer(), o.V, o.V)})
+		}
 		if o.Claim.Batch && !o.Claim.OtherTk { // additionalPatchChecks: not at or after the timeout of a batch that is still pending
 			for _, b := range pre.Bat {
 				if b[0] == uint64(c) && b[1] == uint64(o.Claim.Amt) && b[2] <= o.Claim.Height {
@@ -758,12 +787,12 @@ func (or *oracle) step(e *env, ctx sdk.Context, run *emit.Run, o opT, ok bool, e
 			}
 			distinct[v] = true
 			if v < 0 || !or.voted[key(a.Hash)][v] {
-				out = append(out, viol{"C02:counted-validator-never-voted", fmt.Sprintf("chain %d nonce %d: validator %d is counted but no accepted vote of it for this claim on this chain exists", c, a.Nonce, v)})
+				out = append(out, viol{"C02:counted-validator-never-voted", fmt.Sprintf("chain %d nonce %d: validator %d is counted but it never sent an accepted claim message for this claim on this chain", c, a.Nonce, v)})
 				continue
 			}
 			sum += pw[v]
 		}
-		if !(100*sum > 66*total) {
+		if !gt66(sum, total) {
 			out = append(out, viol{"C02:observed-without-66pct-distinct",
 				fmt.Sprintf("claim at nonce %d observed with Votes=%v: distinct voters hold %d of %d (needs > 66%%)", a.Nonce, a.Votes, sum, total)})
 		}
@@ -905,7 +934,7 @@ func (or *oracle) stall(run *emit.Run, c int, ok bool, errText string, pre, post
 			kind = "already observed (reset to a lower nonce)"
 			break
 		}
-		if 100*distinctPower(*a, pw) > 66*total {
+		if gt66(distinctPower(*a, pw), total) {
 			if a.Cl.GetEthBlockHeight() < ht {
 				kind = "remote height below the last observed one"
 				break
@@ -938,7 +967,7 @@ func (or *oracle) stall(run *emit.Run, c int, ok bool, errText string, pre, post
 	}
 	if ok { // silent stall, judged on the state after the tally alone
 		for _, a := range post.Atts {
-			if a.Nonce == post.Last+1 && !a.Observed && inCompass(post.Compass, a) && 100*distinctPower(a, pw) > 66*total && a.Cl.GetEthBlockHeight() >= post.Height {
+			if a.Nonce == post.Last+1 && !a.Observed && inCompass(post.Compass, a) && gt66(distinctPower(a, pw), total) && a.Cl.GetEthBlockHeight() >= post.Height {
 				out = append(out, viol{"C02:silent-stall", fmt.Sprintf("chain %d: attestationTally returned nil and left the attestation at nonce %d un-applied although distinct voters hold %d of %d and its height is not refused", c, a.Nonce, distinctPower(a, pw), total)})
 			}
 		}
@@ -1012,7 +1041,10 @@ func (e *env) history(run *emit.Run, ops []opT, label string) {
 			}
 		}
 		if o.Kind == "vote" {
-			run.Count("claim_type", map[bool]string{true: "batch", false: map[bool]string{true: "sale", false: "deposit"}[o.Claim.Sale]}[o.Claim.Batch])
+			run.Count("claim_type", o.Claim.typ())
+			if o.signer() != o.V {
+				run.Count("foreign_signer", fmt.Sprintf("%s accepted=%v", o.Claim.typ(), ao.ok))
+			}
 		}
 		c := o.C
 		if global(o) {
@@ -1072,11 +1104,20 @@ var powerShapes = [][]int64{
 
 func genPowers(r *rand.Rand) opT {
 	var pw []int64
-	switch r.Intn(3) {
-	case 0:
+	switch r.Intn(7) {
+	case 6: // near CometBFT's cap on the total voting power (MaxInt64/8 = 1.15e18): 66*total does not fit an int64
+		for i := 0; i < nVals; i++ {
+			pw = append(pw, 100_000_000_000_000_000+r.Int63n(120_000_000_000_000_000))
+		}
+		var sum int64
+		for _, p := range pw {
+			sum += p
+		}
+		return opT{Kind: "powers", Pw: pw, Total: sum}
+	case 0, 3:
 		pw = append(pw, powerShapes[r.Intn(len(powerShapes))]...)
 		r.Shuffle(len(pw), func(i, j int) { pw[i], pw[j] = pw[j], pw[i] })
-	case 1:
+	case 1, 4:
 		for i := 0; i < nVals; i++ {
 			pw = append(pw, int64(r.Intn(60)))
 		}
@@ -1254,7 +1295,17 @@ func (e *env) structured(r *rand.Rand, hostile bool) []opT {
 					cl.Nonce = uint64(r.Intn(4))
 				}
 			}
-			ops = append(ops, opT{Kind: "vote", C: oc, V: v, Claim: cl})
+			vo := opT{Kind: "vote", C: oc, V: v, Claim: cl}
+			if r.Intn(100) < 5 || (hostile && r.Intn(5) == 0) { // created by another account (a validator's or an outsider's) naming v
+				sg := r.Intn(nVals + 3)
+				if sg != v {
+					vo.S = &sg
+				}
+			}
+			ops = append(ops, vo)
+			if vo.S != nil {
+				break
+			}
 			if oc != ci {
 				if v < nVals && status[v] == 0 && cl.Nonce == sh[oc].next[v] {
 					sh[oc].next[v]++
@@ -1280,6 +1331,25 @@ func (e *env) structured(r *rand.Rand, hostile bool) []opT {
 					}
 				}
 			}
+		case x < 58:
+			// impersonation: one account (an outsider, or one validator) submits the claim in the name of every validator
+			sg := nVals + r.Intn(3)
+			if r.Intn(3) == 0 {
+				sg = r.Intn(nVals)
+			}
+			nn := s.cursor + 1
+			cl := variant(r, s, nn, []int{0, 5, 7, 1 + r.Intn(8)}[r.Intn(4)])
+			for _, w := range r.Perm(nVals) {
+				c2, sg2 := *cl, sg
+				vo := opT{Kind: "vote", C: ci, V: w, Claim: &c2}
+				if sg2 != w {
+					vo.S = &sg2
+				} else if s.next[w] == cl.Nonce && status[w] == 0 {
+					s.next[w]++
+				}
+				ops = append(ops, vo)
+			}
+			ops = append(ops, opT{Kind: "tally", C: ci})
 		case x < 73:
 			ops = append(ops, opT{Kind: "tally", C: ci})
 			if r.Intn(3) == 0 {
